@@ -469,6 +469,34 @@ func c19CallbackCases() []c19CB {
 
 var errCBA = errors.New("callback error A")
 
+// c19Bait has the methods generated structs have; each records that it was called.
+type c19Bait struct {
+	X       int
+	S       string
+	touched []string
+}
+
+func (b *c19Bait) rec(m string) {
+	if b != nil {
+		b.touched = append(b.touched, m)
+	}
+}
+func (b *c19Bait) InitDefault()                   { b.rec("InitDefault"); b.X, b.S = 0, "" }
+func (b *c19Bait) Reset()                         { b.rec("Reset"); b.X, b.S = 0, "" }
+func (b *c19Bait) Clear()                         { b.rec("Clear"); b.X, b.S = 0, "" }
+func (b *c19Bait) Recycle()                       { b.rec("Recycle") }
+func (b *c19Bait) String() string                 { b.rec("String"); return "bait" }
+func (b *c19Bait) IsNil() bool                    { b.rec("IsNil"); return b == nil }
+func (b *c19Bait) BLength() int                   { b.rec("BLength"); return 1 }
+func (b *c19Bait) FastRead(p []byte) (int, error) { b.rec("FastRead"); return 0, nil }
+func (b *c19Bait) FastWrite(p []byte) int         { b.rec("FastWrite"); return 0 }
+func (b *c19Bait) FastWriteNocopy(p []byte, w thrift.NocopyWriter) int {
+	b.rec("FastWriteNocopy")
+	return 0
+}
+
+type c19Val struct{ X int }
+
 func c19Callbacks(c *mc.Ctx, k c19CB) {
 	c.Eval(1)
 	bad := func(class, format string, a ...interface{}) {
@@ -519,58 +547,71 @@ func c19Callbacks(c *mc.Ctx, k c19CB) {
 			case 2:
 				reg(0)
 			case 3:
-				var arg interface{} = &struct{ X int }{si}
-				switch si % 3 { // values that are FastCodecs themselves must reach the callback all the same
-				case 1:
-					arg = thrift.NewApplicationException(int32(si), "arg")
-				case 2:
-					arg = &base.Base{LogID: "arg"}
-				}
-				rd := bufiox.NewBytesReader([]byte{1, 2, 3})
-				var target []byte
-				wr := bufiox.NewBytesWriter(&target)
-				before := len(calls)
-				var err error
-				var a0 interface{}
-				switch k.Which {
-				case "check":
-					err = apache.CheckTStruct(arg)
-					a0 = arg
-				case "read":
-					err = apache.ThriftRead(rd, arg)
-					a0 = rd
-				case "write":
-					err = apache.ThriftWrite(wr, arg)
-					a0 = wr
-				}
-				if cur == 0 {
-					if err == nil {
-						bad("unregistered-nil-error", "step %d: the callback is not registered but the call returned nil", si)
+				// every kind of argument reaches the callback as it is: values that are FastCodecs themselves, a value whose
+				// type has the methods generated code has (InitDefault, Reset, String, ...: none may be called on the way and
+				// the content must arrive untouched), typed nil pointers (generated code encodes a nil struct as an empty
+				// one), the untyped nil, and non-pointer values
+				bait := &c19Bait{X: 41 + si, S: "content"}
+				baseArg := &base.Base{LogID: "arg", Caller: "c", Extra: map[string]string{"k": "v"}}
+				args := []interface{}{&struct{ X int }{si}, thrift.NewApplicationException(int32(si), "arg"), baseArg, bait,
+					(*c19Bait)(nil), (*base.Base)(nil), nil, c19Val{X: si}, si}
+				for ai, arg := range args {
+					rd := bufiox.NewBytesReader([]byte{1, 2, 3})
+					var target []byte
+					wr := bufiox.NewBytesWriter(&target)
+					before := len(calls)
+					var err error
+					var a0 interface{}
+					switch k.Which {
+					case "check":
+						err = apache.CheckTStruct(arg)
+						a0 = arg
+					case "read":
+						err = apache.ThriftRead(rd, arg)
+						a0 = rd
+					case "write":
+						err = apache.ThriftWrite(wr, arg)
+						a0 = wr
+					}
+					if cur == 0 {
+						if err == nil {
+							bad("unregistered-nil-error", "step %d: the callback is not registered but the call returned nil", si)
+							return
+						}
+						if len(calls) != before {
+							bad("unregistered-called", "step %d: a callback ran although none is registered", si)
+							return
+						}
+						continue
+					}
+					if len(calls) != before+1 || calls[before].who != cur {
+						bad("wrong-callback", "step %d, argument #%d (%T): expected exactly one call of callback f%d, saw %d new calls (error %v)", si, ai, arg, cur, len(calls)-before, err)
 						return
 					}
-					if len(calls) != before {
-						bad("unregistered-called", "step %d: a callback ran although none is registered", si)
+					cl := calls[before]
+					if k.Which == "check" {
+						if cl.a != interface{}(arg) {
+							bad("arguments", "step %d: the callback did not receive the identical argument (#%d, %T)", si, ai, arg)
+							return
+						}
+					} else if cl.a != a0 || cl.b != interface{}(arg) {
+						bad("arguments", "step %d: the callback did not receive the identical arguments (#%d, %T)", si, ai, arg)
 						return
 					}
-					continue
-				}
-				if len(calls) != before+1 || calls[before].who != cur {
-					bad("wrong-callback", "step %d: expected exactly one call of callback f%d, saw %d new calls", si, cur, len(calls)-before)
-					return
-				}
-				cl := calls[before]
-				if k.Which == "check" {
-					if cl.a != interface{}(arg) {
-						bad("arguments", "step %d: the callback did not receive the identical argument", si)
+					if err != rets[cur] {
+						bad("result", "step %d: the callback returned %v but the bridge returned %v", si, rets[cur], err)
 						return
 					}
-				} else if cl.a != a0 || cl.b != interface{}(arg) {
-					bad("arguments", "step %d: the callback did not receive the identical arguments", si)
-					return
 				}
-				if err != rets[cur] {
-					bad("result", "step %d: the callback returned %v but the bridge returned %v", si, rets[cur], err)
-					return
+				if cur != 0 {
+					if len(bait.touched) != 0 || bait.X != 41+si || bait.S != "content" {
+						bad("argument-touched", "step %d: the bridge called %v on the argument / changed its content on the way to the callback", si, bait.touched)
+						return
+					}
+					if baseArg.LogID != "arg" || baseArg.Caller != "c" || len(baseArg.Extra) != 1 {
+						bad("argument-touched", "step %d: the content of the *base.Base argument was changed by the bridge", si)
+						return
+					}
 				}
 			}
 		}
